@@ -10,7 +10,8 @@
 From Coq Require Import Permutation.
 From CG3 Require Import Lib.PyZ Lib.Rose Model.Tree Model.TreeMid Spec.TreeSpec
   Proofs.TreeProofs Proofs.TreeSubProofs Proofs.TreeExtra Proofs.TreeMidProofs Proofs.TreeChain
-  Proofs.NewickProofs Proofs.NewickMoreProofs Model.TreeJson Model.TreeDist Proofs.TreeDistProofs.
+  Proofs.NewickProofs Proofs.NewickMoreProofs Model.TreeJson Model.TreeDist Proofs.TreeDistProofs
+  Spec.TreeTopoSpec Proofs.TopoBase Proofs.TopoReroot Proofs.TopoOps Proofs.TopoSub Proofs.TopoChain.
 
 (** ---- the distance is a (pseudo-)metric on the tips *)
 Theorem dist_symmetric : forall dflt t a b, pathlen dflt t a b = pathlen dflt t b a.
@@ -162,6 +163,87 @@ Theorem compositions_preserve_tips_and_dists : forall t v, tsteps t v ->
   Permutation (tips v) (tips t) /\ pathlen dflt v a b = pathlen dflt t a b.
 Proof. exact chain_preserves. Qed.
 
+(** ---- UNROOTED TOPOLOGY (Spec/TreeTopoSpec.v).  [cuts t] = the tip set below every non-root node (one per
+    edge); two tip subsets are the same split of the tip set U when equal as sets or complementary in U
+    ([cut_eq]); [same_topology t1 t2]: every NON-TRIVIAL split (>= 2 tips on each side) of t1 is a split of t2
+    and conversely (set equality up to complement; single-child nodes, which repeat their child's split, and
+    trivial splits do not count).  The executable [splits] is what the correspondence compares with the oracle. *)
+Theorem same_topology_is_equality_of_split_sets : forall t1 t2,
+  same_topology t1 t2 <->
+  (forall c, In c (splits t1) -> cut_mem (tips t1) (cuts t2) c = true) /\
+  (forall c, In c (filter (nontrivial (tips t1)) (cuts t2)) -> cut_mem (tips t1) (cuts t1) c = true).
+Proof. exact same_topology_iff_splits. Qed.
+
+Theorem same_topology_equivalence : forall t1 t2 t3,
+  seteq (tips t1) (tips t2) -> seteq (tips t2) (tips t3) ->
+  same_topology t1 t1 /\ (same_topology t1 t2 -> same_topology t2 t1) /\
+  (same_topology t1 t2 -> same_topology t2 t3 -> same_topology t1 t3).
+Proof. exact (fun t1 t2 t3 H12 H23 => conj (same_topology_refl t1) (conj (same_topology_sym t1 t2 H12) (same_topology_trans t1 t2 t3 H12 H23))). Qed.
+
+Theorem reroot_preserves_topology : forall t path x r,
+  subtree_at t path = Some x -> kids x <> [] ->
+  ((2 <= length (kids t))%nat \/ (path = [] /\ kids t <> [])) ->
+  NoDup (tips t) -> reroot_go t path None = Some r -> same_topology t r.
+Proof. exact reroot_topology. Qed.
+
+Theorem rooted_at_preserves_topology : forall t nm r,
+  (2 <= length (kids t))%nat -> NoDup (tips t) -> rooted_at t nm = Ok r -> same_topology t r.
+Proof. exact rooted_at_topology. Qed.
+
+Theorem rooted_with_tip_preserves_topology : forall t nm r,
+  (2 <= length (kids t))%nat -> NoDup (tips t) -> rooted_with_tip t nm = Ok r -> same_topology t r.
+Proof. exact rooted_with_tip_topology. Qed.
+
+Theorem sorted_preserves_topology : forall t order, same_topology t (tree_sorted t order).
+Proof. exact sorted_topology. Qed.
+
+Theorem unrooted_preserves_topology : forall t, NoDup (tips t) -> same_topology t (unrooted_fixed t).
+Proof. exact unrooted_fixed_topology. Qed.
+
+Theorem prune_preserves_topology : forall t, same_topology t (prune t).
+Proof. exact prune_topology. Qed.
+
+(** bifurcating(): every original split is kept; every edge of the result either carries an original
+    tip set or is one of the added edges, whose length is 0 *)
+Theorem bifurcating_keeps_every_split : forall t,
+  incl (cuts t) (cuts (bifurcating t)) /\ splits_incl (tips t) (cuts t) (cuts (bifurcating t)).
+Proof. exact (fun t => conj (bifurcating_keeps_splits t) (bifurcating_refines_topology t)). Qed.
+
+Theorem bifurcating_added_edges_have_length_zero : forall t x,
+  In x (flat_map nodes (kids (bifurcating t))) -> In (tips x) (cuts t) \/ tlen x = Some 0.
+Proof. exact bifurcating_new_edges_zero. Qed.
+
+(** get_sub_tree (tipsonly): the splits of the result are exactly the splits of the original restricted
+    to the kept names, the non-trivial ones ([restricted_topology]); core, and whole repaired method *)
+Theorem sub_tree_core_restricts_topology : forall t S im kr r,
+  pos_lens t = true -> get_sub_tree_core t S im kr true = Ok r -> restricted_topology S t r.
+Proof. exact sub_tree_core_topology. Qed.
+
+Theorem sub_tree_restricts_topology : forall t S im kr r,
+  pos_lens t = true -> NoDup (tips t) ->
+  get_sub_tree_v true t S im kr true = Ok r -> restricted_topology S t r.
+Proof. exact sub_tree_topology. Qed.
+
+Theorem sub_tree_keeping_all_tips_preserves_topology : forall t S im kr r,
+  pos_lens t = true -> get_sub_tree_core t S im kr true = Ok r ->
+  (forall n, In n (tips t) -> In n S) -> same_topology t r.
+Proof. exact sub_tree_all_tips_topology. Qed.
+
+(** root_at_midpoint: the result, and the (possibly edited) receiver *)
+Theorem midpoint_preserves_topology : forall fx t r o,
+  (2 <= length (kids t))%nat -> NoDup (tips t) -> ~ In [] (tips t) ->
+  root_at_midpoint fx t = Ok (r, o) -> same_topology t r.
+Proof. exact midpoint_topology. Qed.
+
+Theorem midpoint_receiver_keeps_topology : forall fx t r o,
+  root_at_midpoint fx t = Ok (r, o) -> same_topology t o.
+Proof. exact midpoint_receiver_topology. Qed.
+
+(** histories: the same chains as in [compositions_preserve_tips_and_dists] *)
+Theorem compositions_preserve_topology : forall t v, tsteps t v -> NoDup (tips t) ->
+  Permutation (tips v) (tips t) /\ same_topology t v.
+Proof. exact chain_topology. Qed.
+
 (** ---- newick: writing a tree ([get_newick], names escaped, with lengths) and parsing the text
     back ([make_tree], underscore_unmunge = True: tokeniser + parser + TreeBuilder naming) is the
     identity on structure, names and lengths.  [rt_ok] (Proofs/NewickProofs.v) is the computable
@@ -229,5 +311,5 @@ Theorem tree_distance_rf_symmetric : forall t1 t2, tree_distance_rf t1 t2 = tree
 Proof. exact tree_distance_rf_sym_gen. Qed.
 
 (** ---- not proved here (see the check's `partial` list): the pinned JSON writer; Lin-Rajan-Moret and
-    matching-cluster distances (oracle only); unrooted topology (split sets) preserved by the transformations. *)
+    matching-cluster distances (oracle only). *)
 
